@@ -22,6 +22,9 @@ MANIFEST = {
 ASSUMPTIONS = ["unwrap_iov succeeds only on messages sealed by the peer's security context (integrity of the negotiated mechanism)",
                "a failed unwrap raises (pyspnego BadMICError and friends)"]
 PARTIAL = [
+    "the flow tie of _process_response is stated for EVERY unwrap function, but for an unwrap that changes the length of the sealed region the source raises BufferError (it assigns into a "
+    "bytearray that a memoryview still exports) where the model's assign_slice resizes: the model accepts more than the code there (safe direction); every real security context and the toy "
+    "context keep the length, which C16_stub_is_unsealed_plaintext assumes explicitly",
     "C16_stub_is_unsealed_plaintext (the stub handed to the caller is the octets the security context returned for the sealed region) is proved for the real call shape under the side "
     "condition 24 <= frag_len - auth_len - 8 (the declared lengths leave room for the 24 RESPONSE header octets in front of the security trailer); the degenerate accepted reply with "
     "frag_len - auth_len - 8 = 23 (seven body octets, an EMPTY stub) is not covered by that theorem (C16_sealed_only still applies to it); and it assumes that unwrap keeps the body "
